@@ -5,6 +5,7 @@ import Driver.Canon
 import PsVerif.Model.PFB
 import PsVerif.Model.PFBEager
 import PsVerif.Model.T1Writers
+import PsVerif.Model.Select
 import PsVerif.Model.Names
 import PsVerif.Model.Query
 import PsVerif.Model.T1Decode
@@ -55,6 +56,24 @@ def csResult (subrs : List (List Nat)) (code : List Nat) : String :=
     let g := d.res
     "ok w=" ++ ratStr g.widthX ++ "," ++ ratStr g.widthY ++ " cmds=" ++ String.intercalate ";" (g.cmds.map cmdStr) ++
       " hs=" ++ String.intercalate "," (g.hstem.map toString) ++ " vs=" ++ String.intercalate "," (g.vstem.map toString)
+
+/-- `ReadCMap`'s choice among the entries of the CMap directory: `key:given,...` (hex; given = `none` or a hex name) -/
+def pickCMapLine (entries : String) : String :=
+  let parsed : Option (List (List Nat × Option (List Nat))) := mapM? (fun (e : String) =>
+    match e.splitOn ":" with
+    | [k, g] => do
+      let kb ← bytesOfHex k
+      let gb ← if g == "none" then some none else (bytesOfHex g).map some
+      pure (kb, gb)
+    | _ => none) (entries.splitOn ",")
+  match parsed with
+  | some es =>
+    let dir : List (Select.Key × (Nat × Option Select.Key)) :=
+      (es.zipIdx).map (fun p => (toU8 p.1.1, (p.2, p.1.2.map toU8)))
+    match Select.pickCMap (fun _ => true) dir with
+    | some (k, (i, g)) => toString i ++ " " ++ hexOfBytes (ofU8 (Select.cmapNameAfter k g))
+    | none => "none"
+  | none => "bad-op"
 
 /-- the buffering stream writers of package type1 over an underlying writer that fails at call `failAt` -/
 def writersLine (eexec : Bool) (failAt chunks : String) : String :=
@@ -161,6 +180,7 @@ def handle (line : String) : String :=
         hexOfBytes (ofU8 c.1) ++ ":" ++ (match c.2 with
           | none => "nil" | some .eof => "EOF" | some .unexpectedEOF => "unexpectedEOF" | some .invalidPFB => "invalidPFB")))
     | _, _, _ => "bad-op"
+  | ["pickcmap", entries] => pickCMapLine entries
   | ["eexecw", failAt, chunks] => writersLine true failAt chunks
   | ["hexw", failAt, chunks] => writersLine false failAt chunks
   | ["glist", keys, enc] =>
